@@ -55,22 +55,28 @@ structure HostRefines (S : RStore F σ) (host : Host F) : Prop where
   resolve : ∀ y s, HostAnswer S (S.resolve y) s (host.resolve y)
   apply : ∀ n r vr s, Decodes (S.view s) r vr → HostAnswer S (S.apply n r) s (host.apply n vr)
 
-/-- a handler run against the machine's pre-`finish` result: same next instruction, related data, cursor untouched -/
+/-- every `Decodes` fact of `s` still holds in `s'` -/
+def DecKept (S : RStore F σ) (s s' : σ) : Prop := ∀ a v, Decodes (S.view s) a v → Decodes (S.view s') a v
+
+/-- a handler run against the machine's pre-`finish` result: same next instruction, related data, cursor untouched,
+every `Decodes` fact kept -/
 def HandlerSim (S : RStore F σ) (P : Prog F) (s : σ) (res : Outcome (Option Nat × σ))
     (r : Except ErrClass (MState F × Nat)) : Prop :=
   match r with
   | .ok (md, n) => ∃ next s1, res = .ok (next, s1) ∧ next.getD (S.cursor s + 1) = n ∧ S.cursor s1 = S.cursor s ∧
-      SimD S P s1 md.regs md.vals md.frames
+      SimD S P s1 md.regs md.vals md.frames ∧ DecKept S s s1
   | .error _ => True
 
 /-- one address-level step against one step of Abs/Machine: a running step ends in related states, a halting step
-in related data (the Rust does not move the cursor when it ends); nothing is claimed when the machine errs -/
+in related data (the Rust does not move the cursor when it ends); every `Decodes` fact is kept; nothing is claimed
+when the machine errs -/
 def StepSim (fo : FloatOps F) (host : Host F) (S : RStore F σ) (P : Prog F) (fuel : Nat) (H : OtherHandlers σ)
     (s : σ) (m : MState F) : Prop :=
   match Abs.step fo host P m with
-  | .running m' => ∃ s', executeCurrentInstruction fo S fuel H s = .ok (.running, s') ∧ Sim S P s' m'
+  | .running m' => ∃ s', executeCurrentInstruction fo S fuel H s = .ok (.running, s') ∧ Sim S P s' m' ∧
+      DecKept S s s'
   | .halted m' => ∃ s', executeCurrentInstruction fo S fuel H s = .ok (.end_, s') ∧
-      SimD S P s' m'.regs m'.vals m'.frames
+      SimD S P s' m'.regs m'.vals m'.frames ∧ DecKept S s s'
   | .err _ => True
 
 end Garnish.Model.Runtime
